@@ -452,11 +452,11 @@ func ruleTolerant(c *Ctx, r *Rep) {
 
 // panicDischarge: functions that contain an explicit panic and the invariant that discharges it.
 var panicDischarge = map[string]string{
-	"cert.ExpectOid":                 "every call site passes a constant within the extension-OID table",
-	"cert.CertificateContext.Sign":   "the key kind returned by the algorithm table is EC or RSA whenever its error is nil, and Sign returns on that error",
+	"cert.ExpectOid":                    "every call site passes a constant within the extension-OID table",
+	"cert.CertificateContext.Sign":      "the key kind returned by the algorithm table is EC or RSA whenever its error is nil, and Sign returns on that error",
 	"config.CertificateContent.HashSum": "json.Marshal cannot fail: all field kinds are marshalable (HASH-SHAPE) and years are within 0..9999 (YEAR-RANGE)",
-	"v1.CustomExtension.Oid":         "every custom extension passed the OID validator when it was parsed (OID-VALID)",
-	"filesystem.importFiles$1":       "every configurator returns *CertificateContent, *CertificateProfile or an error",
+	"v1.CustomExtension.Oid":            "every custom extension passed the OID validator when it was parsed (OID-VALID)",
+	"filesystem.importFiles$1":          "every configurator returns *CertificateContent, *CertificateProfile or an error",
 }
 
 func rulePanicInv(c *Ctx, r *Rep) {
